@@ -17,7 +17,39 @@ pub mod ast { use vstd::prelude::*; #[verifier::external_body] pub struct Unexpa
 pub mod brush_parser { pub mod word { pub use super::super::{TildeExpr, ParameterExpr, WordPiece, WordPieceWithSource}; } }
 pub trait VxOwned { spec fn vx_view(&self) -> Seq<char>; fn vx_owned(self) -> (r: String) ensures r@ == self.vx_view(); }
 impl VxOwned for String { open spec fn vx_view(&self) -> Seq<char> { self@ } #[verifier::external_body] fn vx_owned(self) -> (r: String) { self } }
-pub struct WordExpander { pub disable_command_substitutions: bool, pub in_double_quotes: bool, pub u: u8 }   // projection (fields checked)
+pub struct WordExpander { pub disable_command_substitutions: bool, pub in_double_quotes: bool, pub u: u8,
+    pub calls: Ghost<Seq<(Seq<char>, bool)>> }   // projection (fields checked) + ghost log of basic_expand calls: (text, quote state at the call)
+// ---- the word of ${p:-word} and friends (expand_parameter_word).  bash manual, Shell Parameter Expansion + POSIX XCU 2.6.2: inside
+//  double quotes the word is read with double-quote rules (quotes and backslashes literal apart from the escapes valid there), except
+//  that a word that is itself wholly double-quoted is read, without those quotes, with the ordinary rules; afterwards the rest of the
+//  enclosing double-quoted string is STILL inside double quotes.  Outside double quotes the word is read with the ordinary rules.
+pub uninterp spec fn basic_expand_result(text: Seq<char>, in_double_quotes: bool, nth: nat) -> Result<Expansion, error::Error>;
+impl WordExpander {
+    // expansion.rs basic_expand: ASSUMED to leave the quote state as it found it (its double-quoted arm is the U23 clause
+    // quote-state-restored-on-every-exit-of-a-double-quoted-sequence; a parameter word is the clause below); result uninterpreted
+    #[verifier::external_body]
+    pub fn basic_expand(&mut self, word: &str) -> (r: Result<Expansion, error::Error>)
+        ensures final(self).in_double_quotes == old(self).in_double_quotes,
+            final(self).disable_command_substitutions == old(self).disable_command_substitutions,
+            final(self).calls@ == old(self).calls@.push((word@, old(self).in_double_quotes)),
+            r == basic_expand_result(word@, old(self).in_double_quotes, old(self).calls@.len()),
+    { unimplemented!() }
+}
+pub open spec fn dq_wrapped(w: Seq<char>) -> bool { w.len() >= 2 && w[0] == '"' && w.last() == '"' }
+pub open spec fn parameter_word_call(w: Seq<char>, in_dq: bool) -> (Seq<char>, bool) {
+    if !in_dq { (w, false) } else if dq_wrapped(w) { (w.subrange(1, w.len() - 1), false) } else { (seq!['"'] + w + seq!['"'], true) }
+}
+// R14 stubs: str::strip_prefix(char) / strip_suffix(char), format!("\"{word}\"")
+#[verifier::external_body]
+pub fn str_strip_prefix_char<'a>(s: &'a str, c: char) -> (r: Option<&'a str>)
+    ensures r is Some <==> (s@.len() > 0 && s@[0] == c), r is Some ==> r->Some_0@ == s@.subrange(1, s@.len() as int)
+{ unimplemented!() }
+#[verifier::external_body]
+pub fn str_strip_suffix_char<'a>(s: &'a str, c: char) -> (r: Option<&'a str>)
+    ensures r is Some <==> (s@.len() > 0 && s@.last() == c), r is Some ==> r->Some_0@ == s@.subrange(0, s@.len() - 1)
+{ unimplemented!() }
+#[verifier::external_body]
+pub fn vx_wrap_in_double_quotes(word: &str) -> (r: String) ensures r@ == seq!['"'] + word@ + seq!['"'] { unimplemented!() }
 pub uninterp spec fn tilde_spec(e: brush_parser::word::TildeExpr) -> Result<Seq<char>, error::Error>;
 impl WordExpander {
     // expansion.rs expand_tilde_expression (home directory / $PWD / $OLDPWD / user lookups): NOT verified, result uninterpreted
